@@ -31,9 +31,43 @@ def spec():
     return _S['s']
 
 
+class SymLookup(dict):
+    """a constructor table that can be asked with a symbolic key (bytes or integer): the answer is decided key by key among
+    the entries the symbolic key can equal at all (same length / within its range) - a solver-decided fork per candidate"""
+    def _cands(self, key):
+        if isinstance(key, C.SymBytes):
+            return [k for k in self if isinstance(k, (bytes, bytearray)) and len(k) == len(key)]
+        if isinstance(key, C.SymInt):
+            ub = C.unsigned_bound(key.e)
+            return [k for k in self if isinstance(k, int) and not isinstance(k, bool) and (ub is None or 0 <= k <= ub)]
+        return None
+
+    def get(self, key, default=None):
+        c = self._cands(key)
+        if c is None:
+            return dict.get(self, key, default)
+        if len(c) > 40:
+            raise C.Unmodelled('table lookup with a symbolic key that may equal many entries')
+        for k in c:
+            if key == k:
+                return dict.__getitem__(self, k)
+        return default
+
+    def __contains__(self, key):
+        return self.get(key, SymLookup) is not SymLookup
+
+    def __getitem__(self, key):
+        r = self.get(key, SymLookup)
+        if r is SymLookup:
+            raise KeyError(key)
+        return r
+
+
 def lib():
     if 'l' not in _S:
         _S['l'] = TlGenerator.with_default_schemas().generate()
+        if hasattr(_S['l'], 'id_map') and isinstance(_S['l'].id_map, dict) and C.E() is not None:
+            _S['l'].id_map = SymLookup(_S['l'].id_map)
     return _S['l']
 
 
@@ -66,7 +100,7 @@ class Gen:
             c = self.S.cons[NESTED]
             return self.obj(c, path, boxed_type=True)
         if L < 4:
-            b = bytes([7, 200, 13][:L])          # shorter than a constructor id: concrete (the parser looks every payload up in its id table)
+            b = self.ctx.bytes_(self.name(path), L) if L else b''     # shorter than a constructor id: can never be one (symbolic lookups: SymLookup)
         else:
             b = PREFIX + self.ctx.bytes_(self.name(path), L - 4) if L > 4 else PREFIX
         return b, b, lambda got: got == b
